@@ -104,6 +104,10 @@ class TrajProgram(ProgramBase):
             self.fail_at = (k.choose("fail_frame", self.nframes + 1),
                             [1, 2, 3, -9, -11, 139][k.choose("fail_code", 6)])
             self.sim.k.fault("program_nonzero_exit")
+            if self.fail_at[0] == 0 and k.flip("dies_before_output", 0.5):
+                # e.g. a broken input file: the program exits before it creates any output file
+                self.no_files = True
+                self.sim.k.fault("program_dies_before_creating_output")
         self.early = False
         if self.fail_at is None and scn.get("early_exit") and k.flip("early_exit", 0.8):
             # the program ends normally (code 0) before the requested number of steps
@@ -152,6 +156,9 @@ class TrajProgram(ProgramBase):
             self.term_left -= 1
         self.ticks += 1
         if self.ticks <= self.appear_after:
+            return
+        if getattr(self, "no_files", False):
+            self._finish(self.fail_at[1])
             return
         for w in self.writers:
             w.create()
